@@ -138,6 +138,36 @@ FromObs(mm, o) ==
    next  |-> mm.next]
 NamesUnique(o) == \A i, j \in 1..Len(o.tags) : i # j => o.tags[i].name # o.tags[j].name
 
+\* ---- one builder operation: the model says whether it is valid -----------------------------------
+JudgeOp(e, c, mm, sq) ==
+  LET r     == ApplyOp(mm, Positional(c), e)
+      seqok == e.seq = sq + 1
+      resok == e.res # "panic" /\ (r.valid = "yes" => e.res = "ok")
+  IN [good   |-> r.valid = "unspec" \/ (seqok /\ resok),
+      reason |-> IF seqok THEN "result" ELSE "seq",
+      st     |-> IF r.valid = "yes" /\ e.res = "ok" THEN r.st ELSE mm,
+      unspec |-> r.valid = "unspec"]
+
+\* ---- one build event ------------------------------------------------------------------------------
+JudgeBuild(e, c, mm, sq) ==
+  LET seqok == e.seq = sq + 1
+      has   == "obs" \in DOMAIN e
+      keep  == [st |-> mm, unspec |-> FALSE, dev |-> ""]
+      bad(reason) == \* resynchronise to what the parsed manifest shows, when it shows anything usable
+        IF e.res = "ok" /\ ~Positional(c)
+        THEN IF NamesUnique(e.obs) THEN [good |-> FALSE, reason |-> reason, st |-> FromObs(mm, e.obs), unspec |-> FALSE, dev |-> ""]
+             ELSE [good |-> FALSE, reason |-> reason, st |-> mm, unspec |-> TRUE, dev |-> ""]
+        ELSE [good |-> FALSE, reason |-> reason] @@ keep
+  IN IF ~seqok THEN bad("seq")
+     ELSE IF e.res = "refused" THEN [good |-> TRUE, reason |-> ""] @@ keep     \* no manifest was assembled: nothing to judge
+     ELSE IF e.res \in {"panic", "noparse"} \/ ~has THEN bad(e.res)
+     ELSE LET bOk == BytesOk(c, mm, e.obs)
+              dA  == ~bOk /\ DevF19a(c, mm, e.obs)
+          IN IF ~(bOk \/ dA) THEN bad("bytes")
+             ELSE IF ~ParsedOk(c, mm, e.obs, dA) THEN bad("parsed")
+             ELSE IF ~AskedOk(e, c, mm) THEN bad("query")
+             ELSE [good |-> TRUE, reason |-> "", dev |-> IF dA THEN "F19a" ELSE ""] @@ keep
+
 TInit == /\ l = 1 /\ m = M0 /\ cfg = [kind |-> "none"] /\ seq = 0 /\ unspec = FALSE
          /\ viol = <<>> /\ devs = <<>> /\ why = <<>> /\ stats = S0
 
@@ -156,40 +186,26 @@ Step ==
         /\ seq' = e.seq /\ stats' = Bump("unspec_events")
         /\ UNCHANGED <<m, cfg, unspec, viol, devs, why>>
      ELSE IF e.op # "build" THEN
-        LET r     == ApplyOp(m, Positional(cfg), e)
-            seqok == e.seq = seq + 1
-            resok == e.res # "panic" /\ (r.valid = "yes" => e.res = "ok")
-            good  == r.valid = "unspec" \/ (seqok /\ resok)
-        IN /\ m' = IF r.valid = "yes" /\ e.res = "ok" THEN r.st ELSE m
-           /\ unspec' = (r.valid = "unspec")
+        \E v \in {JudgeOp(e, cfg, m, seq)} :      \* (bound once: the judgement is evaluated a single time)
+           /\ m' = v.st
+           /\ unspec' = v.unspec
            /\ seq' = e.seq
-           /\ viol' = IF good THEN viol ELSE Append(viol, l)
-           /\ why' = IF good THEN why ELSE Append(why, <<l, IF seqok THEN "result" ELSE "seq">>)
+           /\ viol' = IF v.good THEN viol ELSE Append(viol, l)
+           /\ why' = IF v.good THEN why ELSE Append(why, <<l, v.reason>>)
            /\ stats' = Bump("ops")
            /\ UNCHANGED <<cfg, devs>>
      ELSE
-        LET seqok == e.seq = seq + 1
-            mm    == m
-            has   == "obs" \in DOMAIN e
-            refused == e.res = "refused"                      \* no manifest was assembled: nothing to judge
-            bOk   == has /\ BytesOk(cfg, mm, e.obs)
-            dA    == has /\ ~bOk /\ DevF19a(cfg, m, e.obs)
-            pOk   == e.res = "ok" /\ ParsedOk(cfg, mm, e.obs, dA)
-            qOk   == e.res = "ok" /\ AskedOk(e, cfg, mm)
-            good  == seqok /\ (refused \/ ((bOk \/ dA) /\ pOk /\ qOk))
-            reason == IF ~seqok THEN "seq" ELSE IF e.res \in {"panic", "noparse"} THEN e.res
-                      ELSE IF ~has THEN "noobs" ELSE IF ~(bOk \/ dA) THEN "bytes" ELSE IF ~pOk THEN "parsed" ELSE "query"
-        IN /\ viol' = IF good THEN viol ELSE Append(viol, l)
-           /\ why'  = IF good THEN why ELSE Append(why, <<l, reason>>)
-           /\ devs' = IF good /\ dA THEN Append(devs, <<l, "F19a">>) ELSE devs
-           /\ m' = IF good \/ Positional(cfg) \/ e.res # "ok" THEN m
-                   ELSE IF NamesUnique(e.obs) THEN FromObs(m, e.obs) ELSE m
-           /\ unspec' = (~good /\ e.res = "ok" /\ ~Positional(cfg) /\ ~NamesUnique(e.obs))
+        \E v \in {JudgeBuild(e, cfg, m, seq)} :
+           /\ viol' = IF v.good THEN viol ELSE Append(viol, l)
+           /\ why'  = IF v.good THEN why ELSE Append(why, <<l, v.reason>>)
+           /\ devs' = IF v.good /\ v.dev # "" THEN Append(devs, <<l, v.dev>>) ELSE devs
+           /\ m' = v.st
+           /\ unspec' = v.unspec
            /\ seq' = e.seq
-           /\ stats' = [stats EXCEPT !.builds = @ + (IF refused THEN 0 ELSE 1),
-                                     !.refusals = @ + (IF refused THEN 1 ELSE 0),
+           /\ stats' = [stats EXCEPT !.builds = @ + (IF e.res = "refused" THEN 0 ELSE 1),
+                                     !.refusals = @ + (IF e.res = "refused" THEN 1 ELSE 0),
                                      !.queries = @ + (IF e.res = "ok" /\ cfg.kind # "size" THEN Len(e.q) ELSE 0),
-                                     !.bytes_read = @ + (IF has THEN Len(e.obs.bytes) ELSE 0)]
+                                     !.bytes_read = @ + (IF "obs" \in DOMAIN e THEN Len(e.obs.bytes) ELSE 0)]
            /\ UNCHANGED <<cfg>>
   /\ l' = l + 1
 
